@@ -9,21 +9,22 @@
      [k |-> "fail", ctx, m]   a failing command (trigger_error / assert_error) with message m
           ctx: top | fn (inside the body of ff, called here) | loop (inside a 2-iteration for: fails twice)
                | branch (inside if true) | script (a script-implemented command, array_join, fails: the error
-               surfaces at the caller's line with the command's own message) | incl (in an included file)
+               surfaces at the caller's line with the command's own message) | loopscript (the same inside a for loop)
+               | incl (in an included file)
      [k |-> "eoe", on, sp]    exit_on_error <sp>: sp is a spelling of the flag; on = its documented truth value
                               (falsy: "", 0, false, no - case-insensitively; everything else is truthy)
      [k |-> "obs"]            e/l/s = get_last_error / _line / _source ; emit e l s o
    Exec folds the items into the list of observations and the outcome. *)
 EXTENDS Naturals, Sequences, TLC, FiniteSets
 Prologue == 4          \* fn ff / o = trigger_error ${1} / end / arr = array 1 2
-Size(it) == CASE it.k = "fail" -> (IF it.ctx \in {"loop", "branch"} THEN 3 ELSE 1) [] it.k = "eoe" -> 1 [] it.k = "obs" -> 4
+Size(it) == CASE it.k = "fail" -> (IF it.ctx \in {"loop", "branch", "loopscript"} THEN 3 ELSE 1) [] it.k = "eoe" -> 1 [] it.k = "obs" -> 4
 RECURSIVE StartOf(_,_)
 StartOf(items, k) == IF k = 1 THEN Prologue + 1 ELSE StartOf(items, k-1) + Size(items[k-1])
 \* where (file, line) the failing instruction is: "M" = the main script, "I" = the included file
 ErrAt(items, k) == LET it == items[k]  s == StartOf(items, k) IN
    CASE it.ctx = "top" -> [file |-> "M", line |-> s]
      [] it.ctx = "fn" -> [file |-> "M", line |-> 2]
-     [] it.ctx \in {"loop", "branch"} -> [file |-> "M", line |-> s + 1]
+     [] it.ctx \in {"loop", "branch", "loopscript"} -> [file |-> "M", line |-> s + 1]
      [] it.ctx = "script" -> [file |-> "M", line |-> s]
      [] it.ctx = "incl" -> [file |-> "I", line |-> 1]
 NoErr == [msg |-> "", file |-> "", line |-> 0]
@@ -39,7 +40,9 @@ Run(items, k, st) ==
            IF st.eoe THEN [ok |-> FALSE, obs |-> st.obs, msg |-> it.m, file |-> at.file, line |-> at.line]
            ELSE Run(items, k+1, [st EXCEPT !.last = e, !.o = "false"])        \* in a loop it fails twice: same error both times
 Exec(items) == Run(items, 1, [last |-> NoErr, eoe |-> FALSE, o |-> "", obs |-> <<>>])
-Ctxs == {"top", "fn", "loop", "branch", "script", "incl"}
+\* loopscript: a script-implemented command (array_join on a non-handle) failing inside a 2-iteration for loop: it fails
+\* twice at the same line, the loop completes, and the last error stays that command's error
+Ctxs == {"top", "fn", "loop", "branch", "script", "loopscript", "incl"}
 Spellings == {"true", "1", "yes", "false", "0", "no"}
 Truthy(sp) == sp \in {"true", "1", "yes"}
 EoeItems == { [k |-> "eoe", on |-> Truthy(sp), sp |-> sp] : sp \in Spellings }
